@@ -98,6 +98,83 @@ func TestVerifC20(t *testing.T) {
 		cmp(b, a, l, "borrow-chain")
 		r.EvalN(fmt.Sprintf("cmp:structured,len=%d", l), l*8+5)
 	}
+	// sparse differences: a and b agree everywhere except on a structured subset of byte positions
+	// (one byte with all others equal; two bytes pulling in opposite directions; only the high or
+	// only the low halves of 2/4/8/16-byte words aligned from either end; every k-th byte). An
+	// implementation that accumulates differences in wider words and drops part of them is caught here.
+	nSparse := 0
+	for l := 1; l <= 64; l++ {
+		base := rng.Bytes(l)
+		// exactly one differing byte, everything else equal
+		for pos := 0; pos < l; pos++ {
+			for _, delta := range []int{1, 0x7f, 0x80, 0xff} {
+				b := append([]byte{}, base...)
+				b[pos] = byte(int(base[pos]) + delta)
+				cmp(base, b, l, "one-byte-differs")
+				cmp(b, base, l, "one-byte-differs")
+				nSparse += 2
+			}
+		}
+		// two differing bytes: the more significant one decides, the other pulls the opposite way
+		for k := 0; k < 40 && l >= 2; k++ {
+			i := rng.Intn(l - 1)
+			j := i + 1 + rng.Intn(l-1-i)
+			a := append([]byte{}, base...)
+			b := append([]byte{}, base...)
+			a[i], b[i] = 0x40, 0x41
+			a[j], b[j] = 0xf0, 0x01
+			cmp(a, b, l, "two-bytes-opposite")
+			cmp(b, a, l, "two-bytes-opposite")
+			nSparse += 2
+		}
+		// differences confined to one half of every w-byte word
+		for _, w := range []int{2, 4, 8, 16} {
+			for _, fromEnd := range []bool{false, true} {
+				for _, high := range []bool{false, true} {
+					for _, dir := range []int{1, -1} {
+						a := append([]byte{}, base...)
+						b := append([]byte{}, base...)
+						touched := false
+						for pos := 0; pos < l; pos++ {
+							idx := pos
+							if fromEnd {
+								idx = l - 1 - pos
+							}
+							inWord := idx % w
+							isHigh := inWord < w/2
+							if fromEnd {
+								isHigh = inWord >= w/2 // counting from the least significant end
+							}
+							if isHigh == high && rng.Intn(3) != 0 {
+								a[pos] = byte(0x80 + dir*(1+rng.Intn(0x7f)))
+								b[pos] = 0x80
+								touched = true
+							}
+						}
+						if touched {
+							cmp(a, b, l, "half-word-differences")
+							cmp(b, a, l, "half-word-differences")
+							nSparse += 2
+						}
+					}
+				}
+			}
+		}
+		// every k-th byte differs
+		for _, k := range []int{2, 3, 4, 5, 8} {
+			for off := 0; off < k && off < l; off++ {
+				a := append([]byte{}, base...)
+				b := append([]byte{}, base...)
+				for pos := off; pos < l; pos += k {
+					a[pos] = byte(rng.Intn(256))
+					b[pos] = byte(rng.Intn(256))
+				}
+				cmp(a, b, l, "every-kth-byte")
+				nSparse++
+			}
+		}
+	}
+	r.EvalN("cmp:sparse-differences", nSparse)
 	// l < len: only the first l bytes count
 	for i := 0; i < hk.N(20000, 200000); i++ {
 		la := 1 + rng.Intn(64)
